@@ -115,7 +115,7 @@ impl Cs {
 /// Payload classes, simplest first (the shrinker moves towards lower indices).
 pub const PAYLOADS: &[&str] = &[
     "1B", "empty", "N", "Z", "4", "E", "F", "N+", "Z+", "4+", "E+", "F+", "cs-1", "cs", "cs+1", "2cs", "2cs+1",
-    "zeros70", "rand67", "blte", "long1029", "rand40k",
+    "zeros70", "rand67", "blte", "long1029", "rand40k", "n65537",
 ];
 pub type P = u8;
 
@@ -156,6 +156,9 @@ pub fn payload(p: P, cs: Cs, seed: u64) -> Vec<u8> {
         // incompressible and larger than zlib's 32 KiB stored-block limit and flate2's read buffer:
         // used only with the default chunk size (one big chunk), see tier_levels
         "rand40k" => fill(40_000),
+        // with chunk size 1: 65 537 chunks, one more than a 16-bit chunk count holds (the header
+        // field is 24 bits wide); used only with chunk size 1, see tier_levels
+        "n65537" => fill(65_537),
         other => unreachable!("payload class {other}"),
     }
 }
@@ -1186,7 +1189,16 @@ fn names(ps: &[&str]) -> Vec<P> {
 }
 
 fn tier_levels(tier: Tier) -> Vec<LevelDef> {
-    let all_payloads: Vec<P> = (0..PAYLOADS.len() as P).filter(|p| PAYLOADS[*p as usize] != "rand40k").collect();
+    let all_payloads: Vec<P> =
+        (0..PAYLOADS.len() as P).filter(|p| !["rand40k", "n65537"].contains(&PAYLOADS[*p as usize])).collect();
+    // chunk counts beyond 8 and 16 bits of the 24-bit count field: depth 1, chunk size 1
+    let many_chunks_level = || LevelDef {
+        depth: 1,
+        modes: vec![Mode::N, Mode::Z],
+        css: vec![Cs::Sz(1)],
+        encs: vec![None, Some(0)],
+        alpha: CallAlphabet { payloads: names(&["long1029", "n65537"]), specs: vec![0], chunk_modes: vec![Mode::N] },
+    };
     // the big incompressible payload: depth 1, default chunk size only (a single large chunk per call)
     let big_level = |all_modes: &Vec<Mode>| LevelDef {
         depth: 1,
@@ -1232,9 +1244,11 @@ fn tier_levels(tier: Tier) -> Vec<LevelDef> {
                 },
             },
             big_level(&all_modes),
+            many_chunks_level(),
         ],
         Tier::Thorough => vec![
             big_level(&all_modes),
+            many_chunks_level(),
             LevelDef {
                 depth: 0,
                 modes: all_modes.clone(),
